@@ -25,7 +25,7 @@ META = dict(
           "writes performed inside gix (Git object files, refs) are not instrumented; quick tier samples kill points of "
           "content-addressed store objects and takes every ordering-relevant point."),
     design="4 C15")
-READY = False  # being validated
+READY = True
 LEVEL = META["category"]
 
 FILES = ["f1.txt", "f2.txt", "d/f3.txt", "d/f4.txt", "d/e/f5.txt", "f6.txt"]
